@@ -199,7 +199,11 @@ func c17Units(tier string) []Unit {
 	}
 	var cfgs []cfg
 	if tier == "quick" {
-		cfgs = []cfg{{[]string{"a", "a!"}, []uint64{1, 2, 10}, 4, []int{1, 2, 3}}}
+		cfgs = []cfg{
+			{[]string{"a", "a!"}, []uint64{1, 2, 10}, 4, []int{1, 2, 3}},
+			// a user key that contains the version separator and has another user key as its prefix before it
+			{[]string{"a", "a@1"}, []uint64{1, 10}, 3, []int{1, 2}},
+		}
 	} else {
 		cfgs = []cfg{
 			{[]string{"a", "a!", "b"}, []uint64{1, 2, 10}, 5, []int{1, 2, 3}},
